@@ -20,7 +20,7 @@ def cov_c07(st, tier):
 
 
 ENGINES = [
-    {"name": "E-A netsim", "path": "engine/", "serves_properties": ["C01", "C02", "C06", "C10", "C14", "C15"], "kind_free_text": "real client + real server main loops as coroutines in one process under a virtual clock/network/tun; fork-at-choice-point DFS over per-datagram fates, deviation-bounded"},
+    {"name": "E-A netsim", "path": "engine/", "serves_properties": ["C01", "C02", "C06", "C10", "C11", "C14", "C15"], "kind_free_text": "real client + real server main loops as coroutines in one process under a virtual clock/network/tun; fork-at-choice-point DFS over per-datagram fates, deviation-bounded"},
     {"name": "E-B adversary", "path": "engine/", "serves_properties": ["C03", "C04", "C05", "C12", "C13", "C14", "C15", "C16", "C20"], "kind_free_text": "depth-bounded explicit-state search over message alphabets against the real server/client loop, exact-state hashing of the whole image"},
     {"name": "E-C enumerators", "path": "props/", "serves_properties": ["C07", "C08", "C09", "C17", "C18", "C19"], "kind_free_text": "exhaustive enumeration of finite input families through the real pure functions, compared with independent references"},
 ]
@@ -401,6 +401,10 @@ PROPS = {
         "Clean path: every cell of the grid (excluding forced fragment sizes the record type cannot carry) x latency classes runs four packets per direction, offered back-to-back and spaced; the sequence of tun writes on each side must equal the sequence of packets the peer accepted (exactly once, in order), for every packet that fits in 16 fragments. Recovery: in every cell of the pairwise-covering subset a 120-byte packet is offered on each tun every second for 105 virtual seconds; each of 17 outages (all queries / all answers / all datagrams dropped for 3, 7.4, 8, 12, 14, 25 or 35 s at several offsets) is followed by a clean path; neither program may have ended, and every packet offered from 45 s after the outage on must arrive exactly once, in order, within 10 s.",
         "Recovery is decided as bounded response on finite runs (B = 45 s, latency bound 10 s, horizon 105 s; genuine 'eventually' is not what a bounded explorer decides). A cell that cannot carry the offered load without any outage is reported as not judged instead of raising an alarm. 'accepted' is evaluated from read-only accessors at the moment the program reads its tun.",
         "distinct = distinct delivery outcome classes (clean-path runs) and distinct (outage, deliveries) classes (recovery runs)", ["recovery_runs", "recovery_probes_checked", "recovery_cells_not_judged"]),
+    "C11": ea_entry("C11",
+        "The relay is the enumerated dimension (each relay is deterministic, the path is otherwise clean): every member of the family {query names: case keep/lower/upper/pseudo-random x 8-bit clean/strip/refuse x punctuation keep/'+'->'-'/'_'->'-'} x {the same 36 transformations for names and TXT text in answers} x {allowed record types} x {answer size limit none/4096/1232/512} x {EDNS0 honoured/ignored}, with fresh DNS ids per forwarded query. Quick: the 36 'same both ways' relays x 14 prefix/suffix type sets x {none, 512}, plus forced -T/-O through every fifth of them; thorough: all 36x36 combinations x 7 single types x 6 limit/EDNS0 settings, the diagonal x all 127 type sets, and every forced (type, downstream codec) through all diagonal relays. The real client runs its real autodetecting (or forced) handshake against the real server through the relay; if it returns 0, large packets offered on both sides at the same time, then small, then large ones must all arrive intact, once, in order through the same relay; and the autodetecting handshake must succeed on every relay (all of them pass Base32 both ways and answers up to 512 bytes for at least one type).",
+        "'Pseudo-random case' is one fixed per-position hash pattern, a finite stand-in. Known findings (not repaired, see known_findings.json): codecs whose corruption the 48-byte check pattern and the size probe cannot see ('+' in Raw TXT; forced raw/base64/base64u over text-rewriting paths).",
+        "distinct = distinct (negotiated query type, downstream codec, upstream codec, fragment-size class, delivery outcome) classes", []),
     "C10": {
         "engine": "E-A netsim + E-B adversary",
         "parts": [
